@@ -126,13 +126,22 @@ flow:
 
 var engineChecks int
 
-// crossCheckEngine loads the same flows into a REAL streams.Stream (YAML on disk, Stream.Initialize) and applies
-// the registration loop to the REAL Stream.GetSupportedFilters(); a difference from the registration computed
-// from the directly built filters is reported in the answer (and so breaks the correspondence).  Bounded number
-// of checks per process; skipped when the engine does not initialise (flow load order there is a Go map order).
-func crossCheckEngine(ops []string, decls []flowDecl, want *config.HAProxyEndpointsRequest, o *proto.Out) string {
-	if caseHash(ops)%engineCheckEvery != 0 || engineChecks >= engineCheckBudget || len(decls) == 0 {
-		return ""
+const realBuildRepeats = 30
+
+// realFlowsRequests loads the same flows into a REAL streams.Stream (YAML on disk, Stream.Initialize) and builds the
+// registration with the REAL routing.buildHAProxyFlowsEndpointsRequest (verif hook) realBuildRepeats times — the
+// function ranges over a Go map, so its result may depend on the iteration order — and returns the DISTINCT requests
+// seen.  nil when the case is not selected for it (1 case in engineCheckEvery by a hash of its op lines, every case
+// with a catch-all flow) or the engine does not initialise.
+func realFlowsRequests(ops []string, decls []flowDecl, o *proto.Out) []*config.HAProxyEndpointsRequest {
+	catchAll := false
+	for _, d := range decls {
+		if d.url == "*" || d.url == ".*" || d.url == "" {
+			catchAll = true
+		}
+	}
+	if len(decls) == 0 || !catchAll && (caseHash(ops)%engineCheckEvery != 0 || engineChecks >= engineCheckBudget) {
+		return nil
 	}
 	files := map[string]string{}
 	for _, d := range decls {
@@ -151,14 +160,18 @@ func crossCheckEngine(ops []string, decls []flowDecl, want *config.HAProxyEndpoi
 			fmt.Fprintln(os.Stderr, "engine check: init failed:", err)
 		}
 		o.Count("L3-enginecheck-init-failed")
-		return ""
+		return nil
 	}
 	defer e.Close()
-	got := engineFlowsRequest(e.Stream)
-	if endpointsKey(got) != endpointsKey(want) {
-		o.Count("L3-enginecheck-DIFFERS")
-		return "engine-differs"
+	seen := map[string]bool{}
+	var out []*config.HAProxyEndpointsRequest
+	for k := 0; k < realBuildRepeats; k++ {
+		got := engineFlowsRequest(e.Stream)
+		if key := endpointsKey(got); !seen[key] {
+			seen[key] = true
+			out = append(out, got)
+		}
 	}
-	o.Count("L3-enginecheck-same")
-	return ""
+	sort.Slice(out, func(i, j int) bool { return endpointsKey(out[i]) < endpointsKey(out[j]) })
+	return out
 }
